@@ -370,22 +370,27 @@ def attrAddress (u : UnitCtx) (secs : Sections) : AttrVal → Out (Option Nat)
     pure (some a)
   | _ => .ok none
 
-/-- the attribute loop of `Unit::new_with_abbreviations` over the root DIE, as far as these helpers
-are concerned: later attributes override earlier ones, a base attribute counts only as a section
-offset, `DW_AT_low_pc` is resolved last (with the final `addr_base`; an indexed address that cannot
-be looked up fails the construction of the unit). -/
+/-- one iteration of the attribute loop of `Unit::new_with_abbreviations` over the root DIE, as far
+as these helpers are concerned: a base attribute counts only as a section offset and overrides what
+was there; the `DW_AT_low_pc` value is remembered -/
+def basesStep (st : UnitCtx × Option AttrVal) (a : AttrName × AttrVal) : UnitCtx × Option AttrVal :=
+  match a with
+  | (.lowPc, v) => (st.1, some v)
+  | (.addrBase, .secOffset o) => ({ st.1 with addrBase := o }, st.2)
+  | (.rnglistsBase, .secOffset o) => ({ st.1 with rnglistsBase := o }, st.2)
+  | (.loclistsBase, .secOffset o) => ({ st.1 with loclistsBase := o }, st.2)
+  | _ => st
+
+/-- the unit before its root DIE is looked at: `low_pc = 0`, `addr_base = 0`, default list bases -/
+def initialUnit (c : Cfg) (dwo : Bool) : UnitCtx :=
+  { cfg := c, dwo := dwo, lowPc := 0, addrBase := 0,
+    rnglistsBase := defaultListsBase c dwo, loclistsBase := defaultListsBase c dwo }
+
+/-- `Unit::new_with_abbreviations`, the part these helpers depend on: later attributes override
+earlier ones, `DW_AT_low_pc` is resolved last (with the final `addr_base`; an indexed address that
+cannot be looked up fails the construction of the unit). -/
 def unitBases (c : Cfg) (dwo : Bool) (secs : Sections) (root : Attrs) : Out UnitCtx :=
-  let step (st : UnitCtx × Option AttrVal) (a : AttrName × AttrVal) : UnitCtx × Option AttrVal :=
-    match a with
-    | (.lowPc, v) => (st.1, some v)
-    | (.addrBase, .secOffset o) => ({ st.1 with addrBase := o }, st.2)
-    | (.rnglistsBase, .secOffset o) => ({ st.1 with rnglistsBase := o }, st.2)
-    | (.loclistsBase, .secOffset o) => ({ st.1 with loclistsBase := o }, st.2)
-    | _ => st
-  let init : UnitCtx :=
-    { cfg := c, dwo := dwo, lowPc := 0, addrBase := 0,
-      rnglistsBase := defaultListsBase c dwo, loclistsBase := defaultListsBase c dwo }
-  let (u, low) := root.foldl step (init, none)
+  let (u, low) := root.foldl basesStep (initialUnit c dwo, none)
   match low with
   | none => .ok u
   | some v => do
